@@ -441,5 +441,28 @@ func (*c07) Exhaustive(tier string) []any {
 		}
 	}
 	rec(nil)
+	if tier == "thorough" {
+		// every rendered-metadata variant x every placement x {created/adopted by install, by an upgrade} x take on/off,
+		// and every placement in a second namespace x scenario x take on/off
+		for i, m := range c07Metas[1:] {
+			for j, p := range c07Placements {
+				for _, sc := range []string{"install", "upgrade-add"} {
+					for _, take := range []bool{false, true} {
+						out = append(out, c07BuildSpec(c07Spec{Backend: "secret", Scenario: sc, Idx: []int{j % len(c07Pool)}, Place: []string{p}, Metas: []string{m}, BaseMeta: m, Variant: i + j, Take: take}))
+					}
+				}
+			}
+		}
+		for j, p := range c07Placements {
+			for _, sc := range c07Scenarios {
+				for _, take := range []bool{false, true} {
+					if sc == "rollback-recreate" && take {
+						continue
+					}
+					out = append(out, c07BuildSpec(c07Spec{Backend: "secret", Scenario: sc, Idx: []int{j % len(c07Pool), 2}, Place: []string{p, "absent"}, NS: []string{"other", "other"}, Twins: true, Variant: j, Take: take}))
+				}
+			}
+		}
+	}
 	return out
 }
